@@ -25,8 +25,8 @@ CONTRACT_GROUPS = ['C01']   # icontract layer (vlib/contracts.py) active inside 
 RULE = ("case = one generated configuration + point(s); non-trivial if functions were reported and at least one value was compared; "
         "distinct key = case index; monitor_counters.values_compared counts individual numbers checked")
 ASSUMPTIONS = ["the weight row reported in Realizations for a filtered function is the filter's output (checked for correctness by C04/C05)"]
-REQUIRED = {"quick": {"values_compared": 8000, "unfiltered_next_to_filtered": 300, "batch_compared": 1000, "bump_compared": 500, "with_nan": 300, "filter_rows_cross_checked": 1500, "history_calls_compared": 5000, "__nontrivial__": 1246},
-            "thorough": {"values_compared": 150000, "unfiltered_next_to_filtered": 5000, "batch_compared": 20000, "bump_compared": 10000, "with_nan": 5000, "filter_rows_cross_checked": 30000, "history_calls_compared": 100000, "__nontrivial__": 25268}}
+REQUIRED = {"quick": {"values_compared": 8000, "unfiltered_next_to_filtered": 300, "batch_compared": 1000, "bump_compared": 500, "with_nan": 300, "filter_rows_cross_checked": 1500, "history_calls_compared": 5000, "combined_path_function_results_judged": 1500, "__nontrivial__": 1246},
+            "thorough": {"values_compared": 150000, "unfiltered_next_to_filtered": 5000, "batch_compared": 20000, "bump_compared": 10000, "with_nan": 5000, "filter_rows_cross_checked": 30000, "history_calls_compared": 100000, "combined_path_function_results_judged": 30000, "__nontrivial__": 25268}}
 N = {"quick": 3000, "thorough": 60000}
 TOL = 1e-10
 
@@ -319,6 +319,30 @@ def run_case(case, obs):
                 obs.count("bump_compared")
                 if not (a == b2 or (np.isnan(a) and np.isnan(b2))):
                     obs.violation("influenced_by_other_function", function=j, bumped=k, before=float(a), after=float(b2))
+    # the function part of a combined function+gradient evaluation: perturbations that fail (even whole realizations that
+    # fail through their perturbations only) do not change the function values
+    specc = dict(spec)
+    specc["pmin"] = int(rng.integers(1, 4))
+    specc["nan"] = list(spec["nan"]) + [{"call": None, "r": int(r), "p": int(k), "col": int(rng.integers(n_obj + n_con))}
+                                        for r in range(R) for k in range(3) if rng.random() < 0.3]
+    cfgc = ens.make_config(specc)
+    evc = ens.RecordingEvaluator(specc)
+    try:
+        resc = EnsembleEvaluator(cfgc, None, evc, pm).calculate(X[0], compute_functions=True, compute_gradients=True)
+    except OptimizationAborted:
+        resc = None
+    if resc is not None and len(evc.calls) == 1:
+        c0 = evc.calls[0]
+        unp = c0.perturbations < 0
+        obs.count("combined_path_function_results_judged")
+        expected_functions(obs, specc, cfgc, resc[0], c0.objectives[unp], None if c0.constraints is None else c0.constraints[unp])
+        s0 = singles[0]
+        if s0 is not None and s0.functions is not None and resc[0].functions is not None:
+            for name in ("objectives", "constraints", "weighted_objective"):
+                a, c = getattr(resc[0].functions, name), getattr(s0.functions, name)
+                if a is not None and not np.array_equal(a, c, equal_nan=True):
+                    obs.violation("combined_path_functions_differ_from_function_only", field=name, combined=a, function_only=c,
+                                  nan_rules=specc["nan"], pmin=specc["pmin"])
     # one evaluator object (its filters and estimators) serves a history of evaluations whose values and failure pattern
     # change from call to call: every result equals the one a fresh evaluator computes for that call alone
     H = int(rng.integers(2, 5))
